@@ -47,12 +47,15 @@ RULE = ("Every endpoint configuration (ephemeral/filesystem x auth none/basic/st
         "connection made by txtorcon.connect over the fake reactor's connectTCP), with the TorConfig available before or "
         "only after listen(), crossed with a fault at every step of listen(): config Deferred fails / is not a "
         "TorConfig, listenTCP raises, txtorcon refuses the key, Tor answers ADD_ONION/SETCONF with 5xx, the control "
-        "connection is lost while that command is pending, every descriptor upload FAILED - enumerated exhaustively "
+        "connection is lost while that command is pending, every descriptor upload FAILED (REASON UPLOAD_REJECTED / "
+        "UNEXPECTED / absent, per event) - enumerated exhaustively "
         "over configurations x faults with canonical HS_DESC histories, plus Hypothesis-drawn histories (own and "
         "foreign UPLOAD/UPLOADED/FAILED events, reply position). After every step listen()'s Deferred is compared with "
         "the C15 completion model; the fake reactor's listener registry and the decoded ADD_ONION/SETCONF line give "
-        "interface, mapping and leak verdicts. Documented-invalid option combinations are enumerated separately and "
-        "must raise ValueError before any listen/connect/spawn/state-changing command. Non-trivial = a fault is "
+        "interface, mapping and leak verdicts; a resolved port is stopped, started and stopped again. Documented-invalid "
+        "option combinations are enumerated separately (constructor, Tor.create_*, system_tor, global_tor, private_tor, "
+        "onion: strings with and without controlPort) and must raise ValueError before any listen/connect/spawn/Tor "
+        "launch/state-changing command. Non-trivial = a fault is "
         "injected, or the history has a FAILED or foreign event and the model decides, or an invalid combination; "
         "distinct = distinct canonical JSON.")
 ASSUMPTIONS = [
@@ -64,8 +67,13 @@ ASSUMPTIONS = [
     "the descriptor wait follows C15's model in one-success mode (the endpoint never asks for await-all): first own "
     "UPLOADED after its UPLOAD = success, every attempted own upload FAILED = failure, decisions never precede the "
     "creating command's reply; one UPLOAD and one outcome per (service, directory), UPLOAD first",
-    "foreign services upload to directories disjoint from the created service's (how a foreign UPLOADED on a shared "
-    "directory is treated is C15's subject and is excluded here by construction)",
+    "a foreign service uploads to its own directories or (step marked 'shared') to the created service's; its events "
+    "carry its own well-formed onion address and never decide (repo fix 597ba1c compares the address in UPLOADED events)",
+    "a FAILED event of the created service carries REASON=UPLOAD_REJECTED or REASON=UNEXPECTED - the two reasons Tor "
+    "gives for a failed *upload* - or, with low weight, no REASON field (old Tors, the repo's own tests); the other "
+    "control-spec reasons (NOT_FOUND, BAD_DESC, QUERY_REJECTED, QUERY_NO_HSDIR, QUERY_RATE_LIMITED) belong to descriptor "
+    "*fetches*: whether such an event on a directory with an upload in flight counts as an upload failure is not settled "
+    "by the statement, so they are not generated",
     "an ADD_ONION service's own events never precede the ADD_ONION reply; a filesystem service's may precede the SETCONF reply",
     "authenticated services are version 2 with a real RSA-1024 key (v3 has no basic/stealth auth: for auth + version 3 "
     "the scripted Tor rejects the command, as real Tor does, and the case is judged as a rejected-command fault)",
@@ -81,9 +89,15 @@ ASSUMPTIONS = [
     "for a stealth-authenticated service with more than one client there is no single onion hostname; getHost().onion_uri "
     "is then not judged (counted as excluded), onion_port still is",
     "stopListening() may return a Deferred or None; 'closes the local listener' is judged on the reactor's registry "
-    "right after the call (the fake port closes synchronously)",
+    "right after the call (the fake port closes synchronously); a returned Deferred must then have fired",
+    "startListening() after stopListening() must listen again (IListeningPort.startListening, and the class says it "
+    "proxies to the TCP port, which twisted re-binds) on loopback interfaces only - on whatever port: a port bound as 0 "
+    "gets a new number from the OS, and the statement does not say Tor is re-told; the next stopListening() must again "
+    "leave nothing open",
     "global_tor / private_tor and onion: strings without controlPort launch a Tor (find_tor_binary runs `which tor` "
-    "in a real subprocess) and are not driven; their option validation is the same code path as system_tor's",
+    "in a real subprocess): their listen() is not driven, but their refusal of invalid combinations is, with "
+    "txtorcon.controller.launch replaced by a recorder for the duration of the case (a recorded call = a Tor was "
+    "started) and the process-global Tor state of txtorcon.endpoints put back afterwards",
     "Tor reports version 0.4.8.10 (HS_DESC usable); the config has no pre-existing onion services; listen() is called once per endpoint",
 ]
 
@@ -1315,12 +1329,12 @@ MANIFEST = {
             "listeners. Oracle: every listenTCP on a loopback interface; the decoded Port=/HiddenServicePort maps the "
             "public port to exactly the open listener; listen() pending until the C15 completion model decides after the "
             "command's reply, then fires once with a port whose getHost() reports the assigned hostname and the public "
-            "port and whose stopListening() empties the registry; every fault fails listen() with that error and leaves "
+            "port and whose stopListening() empties the registry - also after a startListening() in between; every fault fails listen() with that error and leaves "
             "no listener; documented-invalid option combinations raise ValueError before anything is started. "
             "Finds counterexamples; does not prove absence.",
     "note": "Trusted: vlib/onionref.py (ADD_ONION decoder, HS_DESC renderers, UploadModel, scripted Tor), "
-            "vlib/fakereactor.py, vlib/listenreactor.py, vlib/wire.py. global_tor/private_tor (which launch a Tor via a real "
-            "`which tor` subprocess) are not driven; foreign uploads use disjoint directories (the shared-directory case belongs to C15).",
+            "vlib/fakereactor.py, vlib/listenreactor.py, vlib/wire.py. listen() through global_tor/private_tor (which launch a Tor via a "
+            "real `which tor` subprocess) is not driven; their option validation is, with controller.launch replaced by a recorder.",
     "technique": "fault-point enumeration over a configuration product + property-based testing (Hypothesis) against a reference completion model and a fake reactor's listener registry",
     "design_ref": "DESIGN.md section 4, C17",
 }
@@ -1340,7 +1354,7 @@ def run(ctx):
         ctx.search("listen", cases(), quick=1200, thorough=15000)
 
 
-# NOTE: written against the tree with out/fixes/C17-*.diff applied (two of them restore what the fixes add).
+# NOTE: written against the tree with the two C17 fixes applied (/repo since 2878e4a, 0bdd3be).
 _EP = "txtorcon/endpoints.py"
 MUTANTS = [
     ("bind-all-interfaces", _EP,
@@ -1405,6 +1419,35 @@ MUTANTS = [
      "        cls._validate_options(\n            hidden_service_dir, auth, None, ephemeral, private_key, single_hop,\n        )\n\n"
      "        from txtorcon.controller import connect\n",
      "        from txtorcon.controller import connect\n"),
+    ("global-tor-validates-after-launch", _EP,
+     "        cls._validate_options(\n            hidden_service_dir, auth, None, ephemeral, private_key, single_hop,\n        )\n\n"
+     "        def progress(*args):\n            progress.target(*args)\n        tor = get_global_tor_instance(\n",
+     "        def progress(*args):\n            progress.target(*args)\n        tor = get_global_tor_instance(\n"),
+    ("private-tor-validates-after-launch", _EP,
+     "        cls._validate_options(\n            hidden_service_dir, auth, None, ephemeral, private_key, single_hop,\n        )\n\n"
+     "        def progress(*args):\n            progress.target(*args)\n\n        from .controller import launch\n",
+     "        def progress(*args):\n            progress.target(*args)\n\n        from .controller import launch\n"),
+    ("stoplistening-cached-deferred", _EP,
+     "        \"\"\"IListeningPort API\"\"\"\n        self._local_address.stopListening()\n",
+     "        \"\"\"IListeningPort API\"\"\"\n        if getattr(self, '_stopped', None) is None:\n"
+     "            self._stopped = defer.maybeDeferred(self._local_address.stopListening)\n        return self._stopped\n"),
+    ("stoplistening-deferred-held-back", _EP,
+     "        \"\"\"IListeningPort API\"\"\"\n        self._local_address.stopListening()\n",
+     "        \"\"\"IListeningPort API\"\"\"\n        self._local_address.stopListening()\n        return defer.Deferred()\n"),
+    ("startlistening-noop", _EP,
+     "        \"\"\"IListeningPort API\"\"\"\n        self._local_address.startListening()\n",
+     "        \"\"\"IListeningPort API\"\"\"\n        pass\n"),
+    ("failed-counts-only-if-upload-rejected", "txtorcon/onion.py",
+     "        elif subtype == 'FAILED':\n            if hostname_matches('{}.onion'.format(args[1])):",
+     "        elif subtype == 'FAILED':\n            if 'REASON=UPLOAD_REJECTED' in args and hostname_matches('{}.onion'.format(args[1])):"),
+    ("failed-with-other-reason-skipped", "txtorcon/onion.py",
+     "        elif subtype == 'FAILED':\n            if hostname_matches('{}.onion'.format(args[1])):",
+     "        elif subtype == 'FAILED':\n            if [a for a in args[4:] if a.startswith('REASON=') and a != 'REASON=UPLOAD_REJECTED']:\n"
+     "                return\n            if hostname_matches('{}.onion'.format(args[1])):"),
+    ("failed-without-reason-skipped", "txtorcon/onion.py",
+     "        elif subtype == 'FAILED':\n            if hostname_matches('{}.onion'.format(args[1])):",
+     "        elif subtype == 'FAILED':\n            if not [a for a in args[4:] if a.startswith('REASON=')]:\n"
+     "                return\n            if hostname_matches('{}.onion'.format(args[1])):"),
     ("single-hop-filesystem-accepted", _EP,
      "        if single_hop and not ephemeral:\n", "        if False:\n"),
     ("private-key-filesystem-accepted", _EP,
